@@ -344,13 +344,13 @@ def cases(tier, seed):
         # 4x4: 65536 patterns; npixels symbolic inside the core routine
         for lo, hi in ((1, 2), (3, 4), (5, 17)):
             add((4, 4), 8, 'scalar', 'none', (lo, hi), entry='core',
-                nan=False, max_seconds=1500)
+                nan=False, max_seconds=900)
         add((4, 4), 4, 'scalar', 'none', (1, 17), entry='core', nan=False,
-            max_seconds=1500)
+            max_seconds=900)
         for tpl in TEMPLATES:
             for conn in (4, 8):
                 add((5, 5), conn, 'scalar', 'none', (1, 17), entry='core',
-                    nan=False, template=tpl, max_seconds=2000)
+                    nan=False, template=tpl, max_seconds=1200)
     return cs
 
 
